@@ -114,10 +114,18 @@ Section Writer.
       list); Base = container(0); OnEndEdit: (endList) endContainer Flush *)
   Definition wstart (st : start) : option (list jtok) :=
     match st with
-    | StCont top s d => Some [KLBrace] +++ wnode 0 top s (visit false s d) +++ Some [KRBrace]
+    | StCont top s d =>
+        match s with
+        | SCont _ _ => Some [KLBrace] +++ wnode 0 top s (visit false s d) +++ Some [KRBrace]
+        | _ => None
+        end
     | StList top pmod s d =>
-        Some [KLBrace; KName (wname top pmod (smeta s)); KColon; KLBrack] +++
-        wnode 0 false s (visit true s d) +++ Some [KRBrack; KRBrace]
+        match s with
+        | SList _ _ _ =>
+            Some [KLBrace; KName (wname top pmod (smeta s)); KColon; KLBrack] +++
+            wnode 0 false s (visit true s d) +++ Some [KRBrack; KRBrace]
+        | _ => None
+        end
     | StLeaf m v =>
         match v with
         | None => Some [KLBrace; KRBrace]
@@ -173,3 +181,7 @@ Fixpoint run_ops (cap : option nat) (st : bstate) (ops : list wop) : bstate :=
   end.
 Definition stream_result (cap : option nat) (ops : list wop) : bool :=   (* true = an error is returned *)
   b_err (buf_flush cap (run_ops cap (mkB [] 0 false) ops)).
+
+(** write operations of a token stream: whitespace (and names inside writeValue) are written without
+    looking at the result; under the sticky error that cannot matter (JsonWProofs.stream_error_returned) *)
+Definition ops_of (ts : list jtok) : list wop := map (fun t => (render_tok t, negb (is_ws t))) ts.
